@@ -351,8 +351,23 @@ class RandomStep:
         return None
 
 
+class Exact:
+    """Exactly the given actions, then stop (no automatic continuation): the state after them is what is observed."""
+
+    def __init__(self, actions):
+        self.actions = list(actions)
+        self.pos = 0
+
+    def next(self, ready, pending):
+        if self.pos < len(self.actions):
+            a = self.actions[self.pos]
+            self.pos += 1
+            return a
+        return None
+
+
 def run_schedule(spec, sched, n_runs=1, overlap=False, inputs=None, tag='', step_limit=100000, built=None,
-                 record_orders=True):
+                 record_orders=True, drain=True):
     """Run the real engine under a schedule. sched: a policy object (Replay / RandomBatch / RandomStep) or a plain
     action list (wrapped in Replay). Actions: ['q'] run to quiescence, ['s'] one loop iteration, ['g', gid] complete
     the gate gid, ['c', run] cancel the task of run #run. The explicit actions actually performed are returned in
@@ -437,7 +452,8 @@ def run_schedule(spec, sched, n_runs=1, overlap=False, inputs=None, tag='', step
                 pend = pending_gates(runs, loop, multi)
                 act = policy.next(bool(loop.ready), [g for g, _ in pend])
                 if act is None:
-                    verdict = 'deadlock'
+                    # the policy stops: a deadlock only if nothing can move and nothing is outstanding
+                    verdict = 'deadlock' if (not loop.ready and not pend) else 'stopped'
                     break
                 if act[0] == 's':
                     if loop.ready:
@@ -463,7 +479,7 @@ def run_schedule(spec, sched, n_runs=1, overlap=False, inputs=None, tag='', step
                         obs['actions'].append(['c', act[1] % len(runs)])
             # drain
             drained = 0
-            while loop.ready and drained < 100000:
+            while drain and loop.ready and drained < 100000:
                 loop.step()
                 drained += 1
             snaps.append(snapshot(built))
@@ -486,6 +502,16 @@ def run_schedule(spec, sched, n_runs=1, overlap=False, inputs=None, tag='', step
                 obs['snapshot_diff'] = [(a, b) for s in snaps[1:] for a, b in zip(_flat(snaps[0]), _flat(s)) if a != b][:6]
             obs['orders'] = orders
             obs['descendants'] = descs
+            if not drain:
+                # a stopped run leaves tasks behind: end them quietly (after the observation has been taken)
+                for r in runs:
+                    r.rt.trace = list(r.rt.trace)
+                for t in asyncio.all_tasks(loop):
+                    t.cancel()
+                k = 0
+                while loop.ready and k < 100000:
+                    loop.step()
+                    k += 1
     finally:
         mgr_mod.nx = real_nx
     return obs
